@@ -25,7 +25,7 @@ import urllib.parse
 from concurrent.futures import ProcessPoolExecutor
 
 NSHARDS = 16
-ENC, DEC, ROT, URL, CTRL, QUOTES, DECENUM, NETLOC, SWEEP = 1, 2, 3, 4, 5, 6, 7, 8, 9
+ENC, DEC, ROT, URL, CTRL, QUOTES, DECENUM, NETLOC, SWEEP, NETHOSTS, NETENUM, TRIAL = 1, 2, 3, 4, 5, 6, 7, 8, 9, 10, 11, 12
 F_EARLY, F_ALIGN = 0x40, 0x20      # flag bits (low nibble = alphabet / mode)
 
 STD = frozenset(b"ABCDEFGHIJKLMNOPQRSTUVWXYZabcdefghijklmnopqrstuvwxyz0123456789+/")
@@ -286,6 +286,120 @@ def gen_round5_records(tier, seed, shard, nshards):
             yield _rec(op, flag, bytes(r.choices(pool, k=n)))
 
 
+# ---- netloc: hosts built from the syntax characters of neighbouring notations, each x a port ladder ----------------
+PORT_LADDER = (0, 1, 9, 10, 79, 80, 99, 100, 443, 999, 1000, 8080, 9999, 10000, 32767, 32768, 65534, 65535)
+NET_SYMS = b"[]a1.-@/%"                      # exhaustive short hosts over these
+NON_COLON = [c for c in range(256) if c != 0x3A]
+_DELIMS = [(b"[", b"]"), (b"(", b")"), (b"<", b">"), (b"{", b"}"), (b'"', b'"'), (b"'", b"'"), (b"/", b"/"), (b"%", b"%"),
+           (b"@", b"@"), (b" ", b" "), (b"\0", b"\0"), (b"\\", b"\\"), (b"#", b"?"), (b"//", b"/"), (b"%5B", b"%5D")]
+_SYNTAX_HOSTS = [
+    b"[", b"]", b"[]", b"][", b"[a]", b"[a]b", b"a[b]", b"[a", b"a]", b"host]", b"[host", b"[[a]]", b"[a]]", b"[[a]", b"[a][b]",
+    b"[fe80]", b"[node-7]", b"[1.2.3.4]", b"[]x", b"x[]", b"[a]b]", b"]a[", b"[80]", b"[]80", b"[.]", b"[-]", b"[ ]", b"[\0]",
+    b"@", b"a@b", b"user@host", b"@host", b"host@", b"user@[host]", b"/", b"a/b", b"/path", b"host/", b"//host", b"//host/",
+    b"?", b"a?b=c", b"#", b"a#frag", b"%", b"%%", b"%3A", b"%3a80", b"a%3Ab", b"a%3A80", b"%00", b"%5Ba%5D", b"+", b"a+b",
+    b" ", b" a", b"a ", b" a ", b"a b", b"host 80", b"\0", b"\0a", b"a\0", b"a\0b", b"\0\0", b'"', b'"a"', b"'", b"'a'", b"\\",
+    b"a\\b", b"\\\\host", b"<unknown>", b"<", b">", b"<a>", b"\t", b"\n", b"a\n", b"\r\n", b"host\n80", b"~", b"http//x", b".",
+    b"..", b"a.", b".a", b"-", b"--", b"-a", b"a-", b"_", b"*", b"*.example.com", b"[*]", b"localhost", b"a;b", b"a,b", b"a=b",
+    b"a&b", b"a|b", b"$HOME", b"`a`", b"{a}", b"(a)", b"\x7f", b"\xff", b"\x80[", b"]\x80", b"\xef\xbc\x9a", b"a\xef\xbc\x9a80",
+    b"\xc0\xba", b"a\xc0\xba80", b"\xe2\x80\x8b", b"xn--nxasmq6b", b"h\xc3\xb6st",
+]
+_DIGIT_HOSTS = [b"0", b"00", b"000", b"1", b"9", b"10", b"80", b"080", b"443", b"8080", b"65535", b"65536", b"99999", b"100000",
+                b"4294967295", b"4294967296", b"18446744073709551615", b"18446744073709551616", b"9" * 40, b"0" * 40,
+                b"1.5", b"1e3", b"0x50", b"-1", b"+1", b" 80", b"80 ", b"1.", b".1", b"0.0.0.0", b"255.255.255.255",
+                b"1.2.3.4.5", b"nan", b"inf", b"-inf", b"NaN", b"infinity", b"1e400", b"0x1p4", b"80abc", b"80]", b"[80"]
+
+
+def _nethead(family, ports):
+    fam = family.encode()
+    return bytes([len(fam)]) + fam + bytes([len(ports)]) + b"".join(struct.pack("<I", p) for p in ports)
+
+
+def _nethosts(family, hosts, ports=PORT_LADDER):
+    for h in hosts:
+        assert h and b":" not in h and len(h) < 65536, h
+    return _rec(NETHOSTS, 0, _nethead(family, ports) + b"".join(struct.pack("<H", len(h)) + h for h in hosts))
+
+
+def _netenum(family, syms, L, prefix, ports=PORT_LADDER):
+    assert b":" not in syms and b":" not in prefix
+    return _rec(NETENUM, 0, _nethead(family, ports) + bytes([len(syms)]) + syms + bytes([L, len(prefix)]) + prefix)
+
+
+def netloc_family_hosts(tier, seed):
+    """family name -> list of hosts (non-empty, colon-free byte strings)."""
+    quick = tier == "quick"
+    fam = {}
+    fam["single-byte"] = [bytes([c]) for c in NON_COLON]
+    ends = []
+    for c in NON_COLON:
+        b = bytes([c])
+        ends += [b + b"host", b"host" + b, b + b"a" + b, b + b, b + b"example.com" + b]
+    fam["byte-at-ends"] = ends
+    fam["syntax-chars"] = list(dict.fromkeys(_SYNTAX_HOSTS))
+    fam["all-digits-portlike"] = list(dict.fromkeys(_DIGIT_HOSTS + [b"%d" % p for p in PORT_LADDER]))
+    r = random.Random("c11-nethosts-%s-%d" % (tier, seed))
+    inners = [b"a", b"host", b"1", b"80", b"node-7", b"1.2.3.4", b"fe80", b"", b"x.y", b"a b"]
+    inners += [bytes(r.choice(NON_COLON) for _ in range(r.randint(1, 12))) for _ in range(4 if quick else 40)]
+    wrapped = []
+    for o, c in _DELIMS:
+        for inner in inners:
+            wrapped += [o + inner + c, o + inner, inner + c, o + inner + c + b"x", b"x" + o + inner + c, o + o + inner + c + c,
+                        o + inner + c + o + inner + c]
+    fam["wrapped-in-delimiters"] = [h for h in dict.fromkeys(wrapped) if h]
+    alpha = b"[]@/?#%+ \0\"'\\<>&=;,.-_~abcXYZ0189\xff\x80"
+    rnd = []
+    for i in range(400 if quick else 4000):
+        n = r.randint(2, 6) if i % 2 else r.randint(7, 40)
+        rnd.append(bytes(r.choice(alpha) for _ in range(n)))
+    fam["random-syntax-mix"] = rnd
+    for hosts in fam.values():
+        for h in hosts:
+            assert h and b":" not in h
+    return fam
+
+
+NETENUM_MAXLEN = {"quick": 4, "thorough": 5}
+
+
+def gen_netloc_family_records(tier, seed, shard, nshards):
+    for name, hosts in netloc_family_hosts(tier, seed).items():
+        mine = hosts[shard::nshards]
+        if mine:
+            yield _nethosts(name, mine)
+    # exhaustive: every string of length 1..4 (quick) / 1..5 (thorough) over NET_SYMS, split by the first character
+    j = 0
+    for L in range(1, NETENUM_MAXLEN[tier] + 1):
+        for a in NET_SYMS:
+            if j % nshards == shard:
+                yield _netenum("enum-syntax-alphabet", NET_SYMS, L, bytes([a]))
+            j += 1
+
+
+# ---- escapers: exhaustive short strings over the syntax characters of the escape notations themselves ---------------
+ESC_SYMS12 = b"%\\x41\"'n/ +&"        # what already-escaped text is made of: %41 \x41 \n \" \\ + &
+ESC_SYMS8 = b"%\\x41\"'/"
+
+
+def gen_escaper_syntax_records(tier, seed, shard, nshards):
+    quick = tier == "quick"
+    plans = [(ESC_SYMS12, 3), (ESC_SYMS8, 4)] if quick else [(ESC_SYMS12, 3), (ESC_SYMS12, 4), (ESC_SYMS8, 5)]
+    fixed = [b"%41", b"%2F", b"%2f", b"%%", b"%%41", b"%25", b"%2541", b"100%", b"%4", b"%G1", b"%u0041", b"a+b", b"a%20b",
+             b"\\x41", b"\\\\x41", b"\\n", b"\\\\n", b"\\\"", b"\\\\\"", b"\\", b"\\\\", b"\\x4", b"\\xZZ", b"\\u0041", b"\\0", b"\\101",
+             b"&amp;", b"&#65;", b"&quot;", b"\"\"", b"'\"'", b"\"\\\"", b"a\\", b"\\\"\\", b"%5C", b"%22", b"\\x22", b"\\x5c",
+             b"=?UTF-8?B?QQ==?=", b"${x}", b"$(x)", b"`x`", b"<a href=\"x\">", b"\x1b[0m", b"\xef\xbc\x85" b"41", b"\xc0\xa2"]
+    i = 0
+    for op, flag in ((URL, 0), (URL, 1), (CTRL, 0), (CTRL, 1), (QUOTES, 0)):
+        for x in fixed:
+            if i % nshards == shard:
+                yield _rec(op, flag, x)
+            i += 1
+        for syms, L in plans:
+            for t in itertools.product(syms, repeat=L):
+                if i % nshards == shard:
+                    yield _rec(op, flag, bytes(t))
+                i += 1
+
+
 def gen_shard_records(tier, seed, shard, nshards):
     """Yields this shard's records. Deterministic in (tier, seed, shard)."""
     quick = tier == "quick"
@@ -419,6 +533,10 @@ def gen_shard_records(tier, seed, shard, nshards):
     for h in hosts:
         yield _rec(NETLOC, 0, struct.pack("<II", lo, hi) + h)
 
+    # ---- round 5b: hosts / escaper inputs built from the syntax characters of neighbouring notations
+    yield from gen_netloc_family_records(tier, seed, shard, nshards)
+    yield from gen_escaper_syntax_records(tier, seed, shard, nshards)
+
 
 def _gen_shard(job):
     path, tier, seed, shard, nshards = job
@@ -551,15 +669,34 @@ def judge_shard(job):
     obs = _Obs(od)
     p = 8
     truncated = False
+    skip_records = 0
     try:
-        for _ in range(nrec):
+        irec = 0
+        while irec + skip_records < nrec:
+            irec += 1
             op, flag, n = struct.unpack_from("<BBI", cd, p)
             x = cd[p + 6:p + 6 + n]
             p += 6 + n
             res.prefix = "early-call:" if flag & F_EARLY else ""    # results produced by the static initializer
             if flag & F_ALIGN:
                 res.cls("alignment-reference:%s" % {ENC: "b64enc", DEC: "b64dec", ROT: "rot13"}.get(op, "?"))
+            if op == TRIAL:                 # cold-start stage: one status field per trial; a dead child logged nothing else
+                nrecs_t = struct.unpack_from("<H", x, 0)[0]
+                st_t, how_t = obs.field()
+                res.cls("trial:%s" % ("completed" if st_t == 0 else "child-died"))
+                if st_t != 0:
+                    for _ in range(nrecs_t):
+                        _op, _fl, _n = struct.unpack_from("<BBI", cd, p)
+                        p += 6 + _n
+                    skip_records += nrecs_t
+                continue
             flag &= 0x0F
+            if flag == 3 and op in (ENC, DEC):
+                # caller-supplied alphabet: the statement covers "both alphabets" only -> logged, counted, not judged
+                for _ in range(4 if op == ENC else 2):
+                    obs.field()
+                res.cls("custom-alphabet:%s:observed-not-judged" % ("b64enc" if op == ENC else "b64dec"))
+                continue
             if op == SWEEP:
                 lo, hi, stride, first, every, sd = struct.unpack("<IIIIIQ", x)
                 an = alpha_name(flag)
@@ -716,8 +853,8 @@ def judge_shard(job):
                 res.cls("escape_quotes:%s:%s" % ("escaped" if out != x else "verbatim", "len0-2" if n <= 2 else "len3+"))
                 if n >= 1024:
                     res.cls("big:escape_quotes:%s" % _sizeclass(n))
-            elif op == NETLOC:
-                pass
+            elif op in (NETLOC, NETHOSTS, NETENUM):
+                pass                        # round-trip law, compared in the harness
             else:
                 raise RuntimeError("unknown op %d in %s" % (op, cases_path))
     except Truncated:
@@ -857,5 +994,147 @@ def stage_mt(ctx, st):
         r["samples"] = []
         driver.merge(merged, r)
     merged["counters"]["mt_case_records"] = sum(nrecs)
+    merged["violations"].sort(key=lambda v: (v["key"], len(v.get("case", ""))))
+    return merged
+
+
+# ------------------------------------------------------------------------------------------------
+# cold-start stages: the first C11 calls of a fresh process, made by 2..8 threads at once (harness/c11_cold.cc)
+
+COLD_SHARDS = {"asan": 8, "tsan": 4}
+COLD_TRIALS = {("asan", "quick"): 250, ("asan", "thorough"): 2500, ("tsan", "quick"): 30, ("tsan", "thorough"): 300}   # per shard
+# every function / mode of the property; (ENC|DEC, 3) = caller-supplied alphabet (perturber, not judged)
+COLD_FM = [(ENC, 0), (ENC, 1), (ENC, 2), (DEC, 0), (DEC, 1), (DEC, 2), (ROT, 0), (URL, 0), (URL, 1), (CTRL, 0), (CTRL, 1),
+           (QUOTES, 0), (NETLOC, 0)]
+COLD_PAIRS = [((DEC, 0), (DEC, 1)), ((ENC, 0), (DEC, 0)), ((ENC, 1), (DEC, 1)), ((DEC, 0), (DEC, 3)), ((DEC, 1), (ENC, 3)),
+              ((CTRL, 0), (QUOTES, 0)), ((CTRL, 1), (QUOTES, 0)), ((CTRL, 0), (CTRL, 1)), ((URL, 0), (URL, 1)), ((URL, 0), (CTRL, 1)),
+              ((ROT, 0), (ENC, 0)), ((NETLOC, 0), (URL, 1)), ((NETLOC, 0), (DEC, 2)), ((DEC, 2), (DEC, 0)), ((ENC, 2), (ENC, 1))]
+_COLD_HOSTS = [b"a", b"example.com", b"h\xc3\xb6st.\xff\x80", b"my-host.example.org", b"10.0.0.1", b"[a]", b"-", b"8080", b"a@b/c?d#e"]
+
+
+def _cold_payload(r, op, flag):
+    """One input for function/mode (op, flag)."""
+    if op == ENC:
+        return _rand_bytes(r, r.choice((0, 1, 2, 3, 4, 5)) if r.random() < 0.2 else r.randint(6, 90), r.randint(0, 1))
+    if op == DEC:
+        if flag == 3:
+            return bytes(r.choice(b"./0123456789ABCDEFGHIJKLMNOPQRSTUVWXYZabcdefghijklmnopqrstuvwxyz") for _ in range(4 * r.randint(1, 12)))
+        # valid encodings that use many different alphabet characters (a half-built table shows on whichever are missing);
+        # a third of them with one corrupted character or a bad length (must throw invalid_argument - also on the first call)
+        enc = ref_encode(_rand_bytes(r, r.randint(1, 5) if r.random() < 0.15 else r.randint(24, 90), r.randint(0, 1)), flag)
+        u = r.random()
+        if u < 0.25:
+            pos = r.randrange(len(enc))
+            enc = enc[:pos] + bytes([r.choice(CORRUPT)]) + enc[pos + 1:]
+        elif u < 0.33:
+            enc = enc[:-1] if r.random() < 0.5 else enc + b"A"
+        return enc
+    if op == ROT:
+        return bytes(r.choice(b"abcdefghijklmnopqrstuvwxyzABCDEFGHIJKLMNOPQRSTUVWXYZ @[`{\xe1") for _ in range(r.randint(1, 80)))
+    if op == NETLOC:
+        lo = r.choice((0, 1, 9, 99, 999, 9999, 65532, r.randint(0, 65000)))
+        return struct.pack("<II", lo, lo + 4) + r.choice(_COLD_HOSTS)
+    n = r.randint(1, 12) if r.random() < 0.3 else r.randint(13, 120)
+    if r.random() < 0.5:
+        return bytes(r.choice(_ALL_ESCAPED) for _ in range(n))     # every byte needs its own \xHH / %HH
+    return _rand_bytes(r, n, 2)
+
+
+def gen_cold_records(tier, seed, shard, variant):
+    """TRIAL records, each followed by its records.  Trial kinds: 'same' (all threads make their first call to the same
+    function/mode, each on its own input; cycles through every function/mode), 'pair' (two functions/modes that could
+    plausibly share lazily-built state, alternating over the threads), 'mixed' (random function per thread)."""
+    r = random.Random("c11-cold-%s-%s-%d-%d" % (variant, tier, seed, shard))
+    ntrials = COLD_TRIALS[(variant, tier)]
+    recs = []
+    same_i = shard * 5
+    pair_i = shard * 3
+    for i in range(ntrials):
+        nthreads = 2 + (i + shard) % 7                    # 2..8
+        which = i % 5
+        if which in (0, 1, 2):
+            kind = "same"
+            firsts = [COLD_FM[same_i % len(COLD_FM)]] * nthreads
+            same_i += 1
+        elif which == 3:
+            kind = "pair"
+            a, b = COLD_PAIRS[pair_i % len(COLD_PAIRS)]
+            pair_i += 1
+            firsts = [a if t % 2 == 0 else b for t in range(nthreads)]
+        else:
+            kind = "mixed"
+            firsts = [r.choice(COLD_FM) for _ in range(nthreads)]
+        per_thread = r.choice((1, 2, 3))
+        body = []
+        for k in range(per_thread):
+            for t in range(nthreads):
+                if k == 0:
+                    op, flag = firsts[t]
+                else:
+                    op, flag = r.choice(COLD_FM + [(DEC, 3), (ENC, 3)])
+                body.append(_rec(op, flag, _cold_payload(r, op, flag)))
+        # per-thread start delay in pause-loop iterations: half of the trials start all threads together, the others staggered
+        if r.random() < 0.5:
+            delays = [0] * nthreads
+        else:
+            top = r.choice((4, 16, 64, 256))
+            delays = [r.randint(0, top) for _ in range(nthreads)]
+        kb = kind.encode()
+        exit_mode = 1 if i % 4 == 0 else 0
+        recs.append(_rec(TRIAL, nthreads, struct.pack("<HBB", len(body), exit_mode, len(kb)) + kb + b"".join(struct.pack("<I", d) for d in delays)))
+        recs += body
+    return recs
+
+
+def _gen_cold_shard(job):
+    path, tier, seed, shard, variant = job
+    recs = gen_cold_records(tier, seed, shard, variant)
+    with open(path + ".tmp", "wb") as f:
+        f.write(b"C11C" + struct.pack("<I", len(recs)))
+        f.write(b"".join(recs))
+    os.replace(path + ".tmp", path)
+    return len(recs)
+
+
+def _cold_key(key):
+    """judge key -> key of the cold-start stage: function and law only (alphabet / remainder / padding shape do not matter here)."""
+    return "cold-start:" + ":".join(key.split(":")[:2])
+
+
+def stage_cold(ctx, st):
+    from vf import driver
+    self_test()
+    variant = st.get("variant", "asan")
+    nshards = COLD_SHARDS[variant]
+    tag = st.get("tag", "c11-cold")
+    workdir, tier, seed = ctx["workdir"], ctx["tier"], int(ctx["seed"])
+    cbase = os.path.join(workdir, "c11_coldcases_" + variant)
+    obase = os.path.join(workdir, "c11_coldobs_" + variant)
+    jobs = [("%s.%d.bin" % (cbase, s), tier, seed, s, variant) for s in range(nshards)]
+    with ProcessPoolExecutor(max_workers=nshards) as ex:
+        nrecs = list(ex.map(_gen_cold_shard, jobs))
+    merged = driver.run_harness_stage(ctx, {"name": "c11_cold", "variant": variant, "shards": (nshards, nshards), "tag": tag,
+                                            "args": ["cases=" + cbase, "obs=" + obase], "timeout": (900, 7200)})
+    died = bool(merged["violations"]) or ctx.get("only_shard") is not None
+    shards = [ctx["only_shard"]] if ctx.get("only_shard") is not None else list(range(nshards))
+    shards = [s for s in shards if s < nshards]
+    jjobs = [("%s.%d.bin" % (cbase, s), "%s.%d.bin" % (obase, s), died) for s in shards]
+    with ProcessPoolExecutor(max_workers=nshards) as ex:
+        judged = list(ex.map(judge_shard, jjobs))
+    for s, (r, truncated) in zip(shards, judged):
+        for v in r["violations"]:
+            v["key"] = _cold_key(v["key"])              # a first call in a fresh process, made while other threads made theirs
+            v["meta"] = {"stage": tag, "shard": s, "nshards": nshards,
+                         "cmd": "python: vf.oracles.c11.judge_shard on the results of the concurrent first calls (harness/c11_cold.cc)"}
+        vc = {}
+        for k, n in r["violation_counts"].items():
+            vc[_cold_key(k)] = vc.get(_cold_key(k), 0) + n
+        r["violation_counts"] = vc
+        ncls = sum(v for k, v in r["classes"].items() if not k.startswith(("trial:", "custom-alphabet:")))
+        r["classes"] = {"first-calls-judged-by-python": ncls,
+                        "custom-alphabet-perturbers": sum(v for k, v in r["classes"].items() if k.startswith("custom-alphabet:"))}
+        r["samples"] = []
+        driver.merge(merged, r)
+    merged["counters"]["cold_case_records"] = sum(nrecs)
     merged["violations"].sort(key=lambda v: (v["key"], len(v.get("case", ""))))
     return merged
